@@ -18,9 +18,8 @@ Proved for all states:
   and dependency-sink edges from it one can reach an attached node or go on for ever (a cycle).
 * `orphans_removed_partial`: under `NoDetachedMixedCycle` every detached node that survives
   reaches an attached node (is held by an active consumer or creator); every deleted VOLATILE /
-  BUILT / OUTDATED file row has its path in the queue (`deleted_outputs_are_queued`) together
-  with its parent directory's key (`deleted_file_queues_directory` in the harness; on the model the
-  directory entry is `IsDirEntry`).
+  BUILT / OUTDATED file row has its path in the queue (`deleted_outputs_are_queued`), and every
+  deleted file row the key of its parent directory (`deleted_file_queues_parent_directory`).
 * `survivors_that_lost_a_product_have_no_hash`: a step that created a deleted node and is still
   there has no stored hash.
 * `orphan_cycle_negation`: the full statement `OrphansRemoved` is false of the model: the detached
@@ -230,8 +229,25 @@ theorem deleted_outputs_are_queued (s s' : KState) (hnd : KeysNodup s) (h : s.de
       rw [spec.cores, List.mem_filter]
       exact ⟨List.mem_map.2 ⟨n, hn, rfl⟩, by simpa using hnot⟩
     rw [hgone] at this; cases this
-  obtain ⟨e', he', h'⟩ := spec.complete hnd n.core (List.mem_map.2 ⟨n, hn, rfl⟩) hD e he
-  exact ⟨e', he', h'.trans he.2.1⟩
+  exact spec.complete hnd n.core (List.mem_map.2 ⟨n, hn, rfl⟩) hD n.key.label (Or.inl ⟨e, he, he.2.1⟩)
+
+/-- ... together with the key of its parent directory (whatever the state of the file row): the
+directories StepUp created for a deleted output are considered for removal. -/
+theorem deleted_file_queues_parent_directory (s s' : KState) (hnd : KeysNodup s) (h : s.deleteDetachedBase = .ok s')
+    (n : Node) (hn : n ∈ s.nodes) (hk : n.key.kind = .file) (hgone : s'.has n.key = false)
+    (hdir : ¬ (parentDir n.key.label = "" ∨ parentDir n.key.label = ".")) :
+    ∃ e' ∈ s'.toBeDeleted, e'.1 = parentDir n.key.label ++ "/" := by
+  obtain ⟨D, spec⟩ := deleteDetachedBase_spec s s' h
+  have hD : n.key ∈ D := by
+    apply Classical.byContradiction
+    intro hnot
+    have : s'.has n.key = true := by
+      rw [has_iff]
+      refine ⟨n.core, ?_, rfl⟩
+      rw [spec.cores, List.mem_filter]
+      exact ⟨List.mem_map.2 ⟨n, hn, rfl⟩, by simpa using hnot⟩
+    rw [hgone] at this; cases this
+  exact spec.complete hnd n.core (List.mem_map.2 ⟨n, hn, rfl⟩) hD _ (Or.inr ⟨hk, hdir, rfl⟩)
 
 /-- Nothing that was queued before is forgotten by the deletion loop. -/
 theorem queue_keeps_paths (s s' : KState) (h : s.deleteDetachedBase = .ok s') :
